@@ -54,7 +54,7 @@ def stack_gen(UO, UB, nstacks, seed):
                 layers = [[p for p in layers[0] if p['k'] in ('var', 'vkw')]] * depth
                 kinds, fls, reuse = [kinds[0]] * depth, [{'n': 0, 'names': []}] * depth, True
             if k % nshards == shard:
-                yield wrapstack.stack_event('stack/%d' % k, layers, base, kinds, fls, placement, reuse=reuse, sigattr=(k % 7 == 3))
+                yield wrapstack.stack_event('stack/%d' % k, layers, base, kinds, fls, placement, reuse=reuse, sigattr=(k % 7 == 3), stepwise=(k % 5 in (1, 2)))
     return gen
 
 
@@ -70,7 +70,7 @@ def comb_gen(U, ncomb, seed):
                 ps = U[rnd.randrange(len(U))]
                 funcs.append([dict(arg, k='po' if ps and ps[0]['k'] == 'po' else 'pok')] + list(ps))
             if k % nshards == shard:
-                yield wrapstack.combination_event('comb/%d' % k, funcs, wrapped_member=(k % 5 == 0))
+                yield wrapstack.combination_event('comb/%d' % k, funcs, wrapped_member=(k % 5 == 0), forwarding_member=(k % 3 == 1))
     return gen
 
 
@@ -111,7 +111,7 @@ def replay(check, case, scratch):
     def gen(shard, nshards):
         if shard == 0:
             if 'funcs' in c:
-                yield wrapstack.combination_event(case['tid'], c['funcs'], wrapped_member=c.get('wrapped_member', False))
+                yield wrapstack.combination_event(case['tid'], c['funcs'], wrapped_member=c.get('wrapped_member', False), forwarding_member=c.get('forwarding_member', False))
             else:
-                yield wrapstack.stack_event(case['tid'], c['layers'], c['base'], c['kinds'], c['fls'], c['placement'], reuse=c.get('reuse', False), sigattr=c.get('sigattr', False))
+                yield wrapstack.stack_event(case['tid'], c['layers'], c['base'], c['kinds'], c['fls'], c['placement'], reuse=c.get('reuse', False), sigattr=c.get('sigattr', False), stepwise=c.get('stepwise', False))
     run_trace_leg(check, scratch, 'replay', gen, None, nshards=1, module='Trace_Wrap', describe=wrapstack.describe, classify=classify)
